@@ -62,13 +62,15 @@ class FlockTable:
     h5py 3.16 with two real processes): readers share, a writer excludes."""
 
     def __init__(self):
-        self.entries = []  # [pid, realpath, is_write, weakref(File)]
+        self.entries = []  # [pid, realpath, is_write, weakref(File) | liveness callable]
 
     def _live(self):
         out = []
         for e in self.entries:
             f = e[3]()
-            if f is not None:
+            if f is True:
+                out.append(e)          # an inherited descriptor: alive while its process is
+            elif f is not None and f is not False:
                 try:
                     ok = bool(f.id.valid)
                 except Exception:
@@ -77,6 +79,16 @@ class FlockTable:
                     out.append(e)
         self.entries = out
         return out
+
+    def inherit(self, parent_pid, child_pid, alive):
+        """fork(): the child gets a copy of every descriptor the parent holds, and with it the
+        file lock, until the child exits (flock locks belong to the open file description)."""
+        n = 0
+        for e in list(self._live()):
+            if e[0] == parent_pid:
+                self.entries.append([child_pid, e[1], e[2], alive])
+                n += 1
+        return n
 
     def conflict(self, pid, path, is_write):
         for e in self._live():
@@ -248,7 +260,7 @@ class SimPool:
     `imap` delivers lazily in submission order; `imap_unordered` delivers in
     completion order; workers take task chunks FIFO."""
 
-    def __init__(self, processes=None, initializer=None, initargs=(), *a, **kw):
+    def __init__(self, processes=None, initializer=None, initargs=(), maxtasksperchild=None, *a, **kw):
         sim = kernel.SIM
         self.sim = sim
         self.n = int(processes) if processes else (os.cpu_count() or 1)
@@ -258,15 +270,51 @@ class SimPool:
         self._closed = False
         self._terminated = False
         self._jobno = 0
+        self.maxtasks = int(maxtasksperchild) if maxtasksperchild else None
+        self._init = (initializer, initargs)
+        self._spawned = 0
+        self._vacancies = 0
         sim.counters["pools"] = sim.counters.get("pools", 0) + 1
         self.no = sim.counters["pools"]
         sim.pools.append(self)
         self.workers = []
         sim.emit("pool-create", (self.no, self.n))
         for k in range(self.n):
-            self.workers.append(
-                sim.spawn("p%dw%d" % (self.no, k), self._make_worker(k, initializer, initargs))
-            )
+            self._fork_worker()
+        if self.maxtasks:
+            # multiprocess.Pool's worker-handler thread: replaces exited workers at a moment of
+            # its own choosing (here: the scheduler's), forking from the parent as it is then
+            sim.spawn("p%dh" % self.no, self._handler_loop)
+
+    def _fork_worker(self):
+        sim = self.sim
+        k = self._spawned
+        self._spawned += 1
+        p = sim.spawn("p%dw%d" % (self.no, k), self._make_worker(k, *self._init))
+        self.workers.append(p)
+        n = sim.flock.inherit(0, p.pid, lambda p=p: (not p.done) or False)
+        if n:
+            sim.count("fork-inherited-open-handles", n)
+            sim.emit("fork-inherit", (p.name, n))
+        return p
+
+    def _handler_loop(self):
+        sim = self.sim
+        while True:
+            sim.step(None, None, pred=lambda: self._vacancies > 0 or self._closed or self._terminated,
+                     waitdesc="handler")
+            if self._terminated or (self._closed and not self.tasks):
+                return
+            if self._vacancies > 0:
+                self._vacancies -= 1
+                sim.step("pool-repopulate", self.no)
+                self._fork_worker()
+                sim.count("workers-recycled")
+            elif self._closed:
+                sim.step(None, None, pred=lambda: not self.tasks or self._terminated or self._vacancies > 0,
+                         waitdesc="handler-drain")
+                if not self.tasks or self._terminated:
+                    return
 
     def _next_job(self):
         self._jobno += 1
@@ -277,7 +325,12 @@ class SimPool:
             sim = self.sim
             if initializer is not None:
                 initializer(*initargs)
+            done_tasks = 0
             while True:
+                if self.maxtasks and done_tasks >= self.maxtasks:
+                    self._vacancies += 1
+                    sim.emit("worker-exit-maxtasks", k)
+                    return
                 sim.step(
                     None,
                     None,
@@ -308,6 +361,7 @@ class SimPool:
                 sim.step("task-end", (job.no, i, ok))
                 job.deliver(i, ok, payload)
                 sim.emit("deliver", (job.no, i))
+                done_tasks += 1
 
         return loop
 
@@ -402,8 +456,7 @@ class SimPool:
     def join(self):
         if not self._closed:
             raise ValueError("Pool is still running")
-        ws = self.workers
-        self.sim.step("pool-join", self.no, pred=lambda: all(w.done for w in ws),
+        self.sim.step("pool-join", self.no, pred=lambda: all(w.done for w in self.workers),
                       waitdesc="join")
 
     def __enter__(self):
